@@ -384,7 +384,7 @@ Section Step.
     intros Hok H. bind_inv H q Equ. bind_inv H b Eb. inv_eq H.
     unfold dec_list. eapply good_bind; [eapply good_uint_var; [|exact Equ]; lia|].
     destruct (good_list_loop t vs b [] Hok Eb) as [L1 L2]. split.
-    - intros tail. rewrite rep_n_iter, L1. rewrite app_nil_r, rev_involutive. reflexivity.
+    - intros tail. rewrite rep_n_iter, L1. rewrite <- rev_alt, app_nil_r, rev_involutive. reflexivity.
     - intros p Hp. rewrite rep_n_iter. destruct (L2 p Hp) as [x [-> Hx]]. exists x. auto.
   Qed.
 
